@@ -15,13 +15,16 @@ TRUSTED = [
 ]
 ASSUMPTIONS = [
     "c14_error_verbatim: Error.Data is empty or valid JSON (wire_data d = Some d'; otherwise json.Marshal of the "
-    "*Error fails and no reply is sent: c14_error_verbatim_refuted_invalid_data) and Error.Message is valid UTF-8 "
+    "*Error fails and, since fix F16, the error is sent without its data - same code, same message: "
+    "c14_undeliverable_data_dropped; before the fix no reply was sent, nor any other reply of the same batch: "
+    "c14_error_verbatim_refuted_without_F16, c14_refuted_without_F16) and Error.Message is valid UTF-8 "
     "(otherwise each bad byte arrives as U+FFFD: c14_error_verbatim_refuted_invalid_utf8); data arrives as "
     "json.Marshal's compaction of it, proved JSON-equal in the sense of ErrsJson.json_content: the same significant "
     "bytes outside strings and the same string characters, an ASCII byte / U+2028 / U+2029 being identified with its "
     "\\uXXXX escape (c14_data_json_equal; finer than equality of JSON values, so it implies it)",
     "c14_code_preserved: exact domain code_dom - the error is not classified NoError by ErrorCode unless it is a "
-    "top-level *Error (tasks.responses sends InternalError instead: c14_code_preserved_refuted_noerror_coder)",
+    "top-level *Error (tasks.responses sends InternalError instead: c14_code_preserved_refuted_noerror_coder); no "
+    "condition on the data any more (c14_reply_never_lost; before fix F16: c14_code_preserved_exact_without_F16)",
     "c14_sentinels: no ErrCoder anywhere in the error tree (errors.As runs before errors.Is: "
     "c14_sentinels_refuted_coder_wins)",
     "codes are int32 in Go; the model's theorems hold for every integer",
@@ -37,7 +40,7 @@ def _nontrivial(fields):
         return obs.split("|")[2] != "R"
     if k == "R":
         return obs.split("|")[0] != "R"
-    if k in ("N", "C", "W", "K"):
+    if k in ("N", "C", "W", "K", "B"):
         return True
     return False  # G and S are glue families
 
@@ -82,6 +85,9 @@ def run(ctx, res):
             key = "R:" + f[1] + ":" + obs.split("|")[0]
         elif k == "K":
             key = "K:" + f[1] + ":" + obs.split("|")[0]
+        elif k == "B":
+            kinds = set(x.split("|")[0] for x in obs.split("/"))
+            key = "B:" + ("lost" if "L" in kinds else "error" if "J" in kinds else "results")
         elif k == "N":
             key = "N:" + ("none" if obs == "none" else "reply")
         elif k == "W":
@@ -109,7 +115,12 @@ def run(ctx, res):
         "context (base), or its deadline passing (deadline), plus a live control on the same server: every leaf of the "
         "basis, every depth-1 term over the 12 representative leaves and corner terms in the three cancellation modes, the "
         "representative terms under a deadline (thorough: all), good / raw / unmarshalable results in all modes, random "
-        "terms to depth 4; the handler checks that it saw ctx.Err() as the mode requires. C: "
+        "terms to depth 4; the handler checks that it saw ctx.Err() as the mode requires. F16: a top-level *Error whose "
+        "Data is not JSON (11 kinds of bad data x 5 codes x 2 messages, and by value / wrapped / joined / with an "
+        "unmarshalable result / as a notification / cancelled; 1 in 16 of the random data) must arrive without its data, "
+        "never be lost. B (F17): Client.Batch of 1-6 calls whose handlers return (value, error term) - fixed cases around "
+        "a *Error with bad data next to well-formed calls, and random batches - every member must get the reply it would "
+        "get alone (compared on the wire level: result / error object / lost). C: "
         "ErrorCode(Code(c).Err()). W: WithData (receiver kept, copy/same pointer, nil receiver). G,S: glue families "
         "for the encoding/json contracts. Compared per case: ErrorCode and Error() of the built error, kind of the "
         "error Call returns (*Error / exact sentinel / none / lost), its ErrorCode, message, data. Non-trivial = distinct "
@@ -118,7 +129,7 @@ def run(ctx, res):
     res.extra["outcome_distribution"] = dist
     res.extra["exhaustive_families"] = ("all terms of depth <= 2 over the 12-leaf basis (joins of width <= 2, 3-joins of leaves)"
                                + ("; depth 3 with one non-leaf operand per join" if ctx["tier"] == "thorough" else ""))
-    order = ["E:J", "E:C", "E:D", "K:self:J", "K:deadline:J", "R:u:J", "N:reply", "W:copy"]
+    order = ["E:J", "E:C", "E:D", "K:self:J", "B:error", "R:u:J", "N:reply", "W:copy"]
     res.samples = [samples[k] for k in order if k in samples][:8]
     what = {
         "E": "the error reaching the caller (or ErrorCode/Error() of the handler's error) differs from the specification",
@@ -126,12 +137,27 @@ def run(ctx, res):
         "N": "the server's reaction to a failing notification differs from the specification",
         "K": "the reply to a call whose context was done when its handler returned is not the one for what the handler "
              "returned (c14_cancellation_does_not_replace_error)",
+        "B": "a call of a batch did not get the reply it would get alone (c14_batch_members_independent, "
+             "c14_batch_never_loses)",
         "C": "ErrorCode(Code(c).Err()) or its text differs from the specification",
         "W": "Error.WithData modified its receiver or built a different copy",
         "G": "json.Marshal(json.RawMessage) differs from the modelled contract (glue)",
         "S": "the JSON string round trip differs from the modelled contract (glue)",
     }
-    for m in mism[:20]:
+    # report the first disagreement of every family first (only a few violations are printed)
+    first, rest, seen_fam = [], [], set()
+    for m in mism:
+        fam = lines[m["line"] - 1].split("\t")[0]
+        if fam in seen_fam:
+            rest.append(m)
+        else:
+            seen_fam.add(fam)
+            first.append(m)
+    res.extra["mismatches_by_family"] = {}
+    for m in mism:
+        fam = lines[m["line"] - 1].split("\t")[0]
+        res.extra["mismatches_by_family"][fam] = res.extra["mismatches_by_family"].get(fam, 0) + 1
+    for m in (first + rest)[:20]:
         line = lines[m["line"] - 1]
         f = line.split("\t")
         inp = "\t".join(f[:-1])
